@@ -587,9 +587,49 @@ func (s *scen) run() {
 		go func() { wg2.Wait(); close(done2) }()
 		quiescent = s.finish(done2)
 	}
+	if quiescent {
+		s.settle()
+	}
 	s.em.ev("EndScenario", "quiescent", quiescent)
 	s.observe()
 	s.cleanup()
+}
+
+// settle gives the asynchronous part of a Shutdown whose context was cancelled or expired the time to
+// complete before the scenario is closed: stock components shut their exporter down from a goroutine.
+// It waits (<= 2 s) until every stock component that was shut down has seen its exporter shut down.
+func (s *scen) settle() {
+	var fs []*compBase
+	switch {
+	case s.tw != nil:
+		for _, c := range s.tw.comps {
+			fs = append(fs, &c.compBase)
+		}
+	case s.lw != nil:
+		for _, c := range s.lw.comps {
+			fs = append(fs, &c.compBase)
+		}
+	case s.mw != nil:
+		for _, c := range s.mw.comps {
+			fs = append(fs, c)
+		}
+	}
+	for t0 := time.Now(); time.Since(t0) < 2*time.Second; time.Sleep(time.Millisecond) {
+		pending := false
+		for _, c := range fs {
+			if c.kind != "simple" && c.kind != "batch" && c.kind != "periodic" {
+				continue
+			}
+			c.f.mu.Lock()
+			if c.f.sd > 0 && c.f.xsd == 0 {
+				pending = true
+			}
+			c.f.mu.Unlock()
+		}
+		if !pending {
+			return
+		}
+	}
 }
 
 func (s *scen) finish(done <-chan struct{}) bool {
